@@ -863,33 +863,59 @@ Proof.
   cbn. rewrite Hr. f_equal. apply ecache_remove. assumption.
 Qed.
 
-Lemma dstep_sim : forall s1 s2 t mid tok code ro b, csim s1 s2 ->
+(* the handler / processResponse piece, for an ordinary response (Dedup.Model.plain_beh: the reply is not a
+   Reset / Empty message, whose own message ID travels in a non-confirmable or reset message) *)
+Lemma plain_not_special tok ro b h : plain_beh b = true -> handler_result tok ro b = Some h -> is_special h = false.
+Proof.
+  destruct b as [|c o p|c t o p|]; cbn [plain_beh handler_result]; intros Hp Hh; try discriminate.
+  - destruct (rw_refuses ro c); [discriminate|]. injection Hh as <-. unfold is_special; cbn.
+    destruct (c =? 0); [discriminate|reflexivity].
+  - injection Hh as <-. unfold is_special; cbn. destruct (c =? 0); [discriminate|reflexivity].
+Qed.
+
+Lemma handle_sim : forall t mid tok ro b a1 a2, plain_beh b = true ->
+  hd_store (req_handle t mid tok ro b a1) = hd_store (req_handle t mid tok ro b a2) /\
+  option_map erase_wire (hd_reply (req_handle t mid tok ro b a1)) = option_map erase_wire (hd_reply (req_handle t mid tok ro b a2)).
+Proof.
+  intros t mid tok ro b a1 a2 Hp. unfold req_handle.
+  destruct (handler_result tok ro b) as [h|] eqn:Hh.
+  - rewrite (plain_not_special _ _ _ _ Hp Hh).
+    destruct (t =? CON); cbn [hd_store hd_reply option_map]; split; try reflexivity.
+  - destruct (t =? CON); split; reflexivity.
+Qed.
+
+Lemma app_behaviour_plain : forall m, plain_beh (app_behaviour m) = true.
+Proof.
+  intros m. unfold app_behaviour. destruct (route_of routes (uri_path (m_opts m))); [|reflexivity].
+  unfold resp_code. cbn [plain_beh].
+  destruct (m_code m =? 1); [reflexivity|]. destruct (m_code m =? 2); [reflexivity|].
+  destruct (m_code m =? 3); [reflexivity|]. destruct (m_code m =? 4); reflexivity.
+Qed.
+
+Lemma dstep_sim : forall s1 s2 t mid tok code ro b, plain_beh b = true -> csim s1 s2 ->
   let r1 := Dedup.Model.step s1 (Req t mid tok code ro b) in
   let r2 := Dedup.Model.step s2 (Req t mid tok code ro b) in
   csim (fst r1) (fst r2) /\ o_called (snd r1) = o_called (snd r2)
   /\ map erase_wire (o_out (snd r1)) = map erase_wire (o_out (snd r2)).
 Proof.
-  intros s1 s2 t mid tok code ro b H. unfold csim in *. cbn [Dedup.Model.step].
-  generalize (if t =? CON then check_my_mid 4 mid (own s1) else own s1) as a1.
-  generalize (if t =? CON then check_my_mid 4 mid (own s2) else own s2) as a2. intros a2 a1.
+  intros s1 s2 t mid tok code ro b Hp H. unfold csim in *. cbn [Dedup.Model.step].
+  generalize (req_check t mid (own s1)) as a1. generalize (req_check t mid (own s2)) as a2. intros a2 a1.
   pose proof (ecache_load (cache s1) (cache s2) mid H) as HL.
-  destruct (is_cacheable_typ t).
+  assert (Hmiss : ecache (req_store mid (req_handle t mid tok ro b a1) (cache s1)) =
+                  ecache (req_store mid (req_handle t mid tok ro b a2) (cache s2)) /\
+                  map erase_wire (o_out (obs_of_reply true (hd_reply (req_handle t mid tok ro b a1)))) =
+                  map erase_wire (o_out (obs_of_reply true (hd_reply (req_handle t mid tok ro b a2))))).
+  { destruct (handle_sim t mid tok ro b a1 a2 Hp) as [Hs Hr]. unfold req_store, store_reply. rewrite Hs.
+    destruct (hd_reply (req_handle t mid tok ro b a1)) as [r1|], (hd_reply (req_handle t mid tok ro b a2)) as [r2|];
+      cbn [option_map] in Hr; try discriminate.
+    - injection Hr as Hr. cbn [obs_of_reply o_out map]. rewrite Hr. split; [|reflexivity].
+      destruct (hd_store (req_handle t mid tok ro b a2)); [apply ecache_store; assumption|assumption].
+    - split; [|reflexivity]. destruct (hd_store (req_handle t mid tok ro b a2)); assumption. }
+  unfold req_lookup. destruct (is_cacheable_typ t).
   - destruct (cache_load (cache s1) mid) as [e1|], (cache_load (cache s2) mid) as [e2|]; try contradiction.
-    + destruct (erase_wire_fields _ _ HL) as [_ [Hc [Hk [Ho Hp]]]]. cbn. rewrite Hc, Hk, Ho, Hp. auto.
-    + destruct (handler_result ro b) as [[[rc ro'] rp]|]; destruct (t =? CON) eqn:Et; cbn [fst snd cache o_called o_out map].
-      * split; [apply ecache_store; [assumption|reflexivity]|auto].
-      * split; [|split; [reflexivity|]].
-        -- destruct (t =? NON); [|assumption]. apply ecache_store; [assumption|]. unfold erase_wire; cbn. reflexivity.
-        -- unfold erase_wire; cbn. reflexivity.
-      * split; [apply ecache_store; [assumption|reflexivity]|auto].
-      * auto.
-  - destruct (handler_result ro b) as [[[rc ro'] rp]|]; destruct (t =? CON) eqn:Et; cbn [fst snd cache o_called o_out map].
-    + split; [apply ecache_store; [assumption|reflexivity]|auto].
-    + split; [|split; [reflexivity|]].
-      -- destruct (t =? NON); [|assumption]. apply ecache_store; [assumption|]. unfold erase_wire; cbn. reflexivity.
-      -- unfold erase_wire; cbn. reflexivity.
-    + split; [apply ecache_store; [assumption|reflexivity]|auto].
-    + auto.
+    + destruct (erase_wire_fields _ _ HL) as [_ [Hc [Hk [Ho Hpay]]]]. cbn. unfold retarget. rewrite Hc, Hk, Ho, Hpay. auto.
+    + cbn [fst snd cache obs_of_reply o_called]. destruct Hmiss as [Hm1 Hm2]. auto.
+  - cbn [fst snd cache obs_of_reply o_called]. destruct Hmiss as [Hm1 Hm2]. auto.
 Qed.
 
 Lemma cstep_sim : forall maxsize t s1 s2 d, csim s1 s2 ->
@@ -907,8 +933,10 @@ Proof.
   destruct (is_separate m); [cbn; auto|].
   destruct (match mh_lookup t (m_tok m) with
             | Some r => (BNone, CDeliver r (m_tok m) (m_code m) (m_pay m))
-            | None => (app_behaviour m, CHandled (m_tok m) (m_code m) (m_pay m)) end) as [b note].
-  pose proof (dstep_sim s1 s2 (m_typ m) (m_mid m) (m_tok m) (m_code m) (m_opts m) b H) as HS. cbn zeta in HS.
+            | None => (app_behaviour m, CHandled (m_tok m) (m_code m) (m_pay m)) end) as [b note] eqn:Eb.
+  assert (Hpl : plain_beh b = true).
+  { destruct (mh_lookup t (m_tok m)); injection Eb as <- _; [reflexivity|apply app_behaviour_plain]. }
+  pose proof (dstep_sim s1 s2 (m_typ m) (m_mid m) (m_tok m) (m_code m) (m_opts m) b Hpl H) as HS. cbn zeta in HS.
   destruct (Dedup.Model.step s1 _) as [s1' o1]. destruct (Dedup.Model.step s2 _) as [s2' o2]. cbn [fst snd] in HS.
   destruct HS as [Hs [Hc Ho]]. split; [assumption|]. split; [|reflexivity].
   rewrite !map_app, Hc. f_equal. rewrite !map_map. cbn [erase_cout].
@@ -1057,7 +1085,7 @@ Theorem cstep_discovery_delivers : forall maxsize t s d m r, bytes_ok d = true -
 Proof.
   intros maxsize t s d m r Hb Hsz Hd Hp Hs Hc Hl. unfold cstep. rewrite Hb. cbn [negb].
   replace (maxsize <? blen d) with false by lia. rewrite Hd, Hp, Hs, Hl.
-  cbn [Dedup.Model.step]. rewrite Hc. cbn [handler_result].
+  cbn [Dedup.Model.step]. unfold req_lookup. rewrite Hc. unfold req_handle. cbn [handler_result].
   destruct (m_typ m =? CON); cbn; do 3 eexists; (split; [reflexivity|]); cbn; auto.
 Qed.
 
